@@ -22,6 +22,7 @@ type OblResult struct {
 	Sites    []string          `json:"sites,omitempty"`
 	Nondets  map[string]string `json:"nondets,omitempty"`
 	Schedule []string          `json:"schedule,omitempty"`
+	Entries  []SchedEntry      `json:"schedule_entries,omitempty"`
 	SchedIdx []int             `json:"sched_idx,omitempty"`
 	Detail   string            `json:"detail,omitempty"`
 	Cross    string            `json:"cross,omitempty"`
@@ -77,7 +78,25 @@ func main() {
 	feasSched := flag.Bool("feas-sched", false, "solver feasibility checks at loop back edges in sched mode too")
 	unwindFn := flag.String("unwind-fn", "", "per-function unwinding bounds: Name=n,Name=n")
 	eagerAll := flag.Bool("eager-all", false, "execute every potential runtime panic eagerly")
+	instrDir := flag.String("instrument", "", "write instrumented copies of the package sources (for native schedule replay) into this directory and exit")
 	flag.Parse()
+	if *instrDir != "" {
+		TS = NewTermStore()
+		l, err := loadRepo(*repo, *hdir, nil)
+		if err != nil {
+			fmt.Fprintln(os.Stderr, "load failed:", err)
+			os.Exit(3)
+		}
+		os.MkdirAll(*instrDir, 0755)
+		m, err := instrumentRepo(l, *instrDir)
+		if err != nil {
+			fmt.Fprintln(os.Stderr, "instrument failed:", err)
+			os.Exit(3)
+		}
+		b, _ := json.MarshalIndent(m, "", " ")
+		fmt.Println(string(b))
+		return
+	}
 
 	res := &RunResult{Harness: *fn, Mode: *mode, T: *T, Unwind: *unwind, Solver: *solver}
 	start := time.Now()
@@ -419,6 +438,7 @@ func main() {
 				}
 				if si != nil {
 					or.Schedule = e.describeSchedule(si, r.Model)
+					or.Entries = e.scheduleEntries(si, r.Model)
 					for t := 0; t < len(si.S); t++ {
 						or.SchedIdx = append(or.SchedIdx, int(r.Model[fmt.Sprintf("s_%d", t)]))
 					}
